@@ -47,9 +47,9 @@ func appendIfNotEmpty(slice []string, strings ...string) []string {
 	return slice
 }
 
-// sanitizersForAttributeValue returns a list of names of functions that will be
-// called in order to sanitize data values found the HTML attribtue value context c.
-func sanitizersForAttributeValue(c context) ([]string, error) {
+// sanitizationContextForAttributeValue returns the sanitization context for the attribute
+// value that c is in.
+func sanitizationContextForAttributeValue(c context) (sanitizationContext, error) {
 	// Ensure that all combinations of element and attribute names for this context results
 	// in the same attribute value sanitization context.
 	var elems, attrs []string
@@ -70,20 +70,61 @@ func sanitizersForAttributeValue(c context) ([]string, error) {
 			sc, err := sanitizationContextForAttrVal(elem, attr, c.linkRel)
 			if err != nil {
 				if len(elems) == 1 && len(attrs) == 1 {
-					return nil, err
+					return 0, err
 				}
-				return nil, fmt.Errorf(`conditional branch with {element=%q, attribute=%q} results in sanitization error: %s`, elem, attr, err)
+				return 0, fmt.Errorf(`conditional branch with {element=%q, attribute=%q} results in sanitization error: %s`, elem, attr, err)
 			}
 			if i == 0 && j == 0 {
 				sc0, elem0, attr0 = sc, elem, attr
 				continue
 			}
 			if sc != sc0 {
-				return nil, fmt.Errorf(
+				return 0, fmt.Errorf(
 					`conditional branches end in different attribute value sanitization contexts: {element=%q, attribute=%q} has sanitization context %q, {element=%q, attribute=%q} has sanitization context %q`,
 					elem0, attr0, sc0, elem, attr, sc)
 			}
 		}
+	}
+	return sc0, nil
+}
+
+// attributeValueClass describes everything that determines how actions in the attribute
+// value that c is in are sanitized: the sanitization context and, for URLs, what is known
+// about the part of the value that precedes the action. It distinguishes the copies of a
+// template that is called from inside attribute values.
+func attributeValueClass(c context) string {
+	sc, err := sanitizationContextForAttributeValue(c)
+	if err != nil {
+		return "Invalid"
+	}
+	s := sc.String()
+	switch {
+	case !sc.isURLorTrustedResourceURL():
+		if c.attr.value != "" || c.attr.dynamic {
+			s += "Partial"
+		}
+	case c.attr.value == "" && c.attr.dynamic:
+		s += "AfterAction"
+	case c.attr.value == "":
+		s += "Start"
+	case c.attr.ambiguousValue:
+		s += "AmbiguousPrefix"
+	case urlPrefixLeavesSchemeOpen(sc, c.attr.value):
+		s += "UnsafePrefix"
+	case strings.ContainsAny(c.attr.value, "#?"):
+		s += "Query"
+	default:
+		s += "Prefix"
+	}
+	return s
+}
+
+// sanitizersForAttributeValue returns a list of names of functions that will be
+// called in order to sanitize data values found the HTML attribtue value context c.
+func sanitizersForAttributeValue(c context) ([]string, error) {
+	sc0, err := sanitizationContextForAttributeValue(c)
+	if err != nil {
+		return nil, err
 	}
 	if sc0.isEnum() && c.attr.value != "" {
 		return nil, fmt.Errorf("partial substitutions are disallowed in the %q attribute value context of a %q element", c.attr.name, c.element.name)
